@@ -458,6 +458,14 @@ pub fn run(ctx: &mut Ctx) {
         }
     }
     ctx.report.note("fold_results_with_empty_atom_names_observation_only", empty_names);
+    // a well-formed value the string generators built could not be formatted at all
+    for (f, canon, p) in formatter_panics() {
+        ctx.report.violate(
+            format!("C12|format-panic|{}|{}", f, crate::guard::panic_site(&p)),
+            format!("[{}] formatting the well-formed value {} panicked: {}", f, canon, p),
+            J::obj().set("kind", "format-panic").set("format", f.as_str()).set("value_canon", canon.as_str()).set("panic", p.as_str()),
+        );
+    }
     ctx.report.note(
         "rule",
         "a case = one input string through the enum parser (every Ok value walked, then formatted in 3 formats and rendered to Typst) or one lexical value folded; non-trivial = the input was accepted (Ok) — rejected inputs only count as evaluations; distinct = distinct accepted (format, string) / (folder, lexical value)",
